@@ -172,11 +172,13 @@ Close(i) ==
 
 Next == \/ (\E r \in Remotes, t \in Tags : SaLookup(r, "resolve", t)) \/ SaStart \/ SaSend
         \/ (\E i \in 1..MaxInst : SaJoinOther(i)) \/ (\E i \in 1..MaxInst : SaJoinOwn(i))
-        \/ (\E i \in 1..MaxInst : Cleanup(i)) \/ SaRestartBeforeJoin
+        \/ (\E i \in 1..MaxInst : Cleanup(i))
         \/ (\E r \in Remotes : TsLookup(r, "info")) \/ TsSend
         \/ (\E i \in 1..MaxInst : Handle(i)) \/ (\E i \in 1..MaxInst : LookupFinish(i))
         \/ (\E i \in 1..MaxInst : IdleDecide(i)) \/ (\E i \in 1..MaxInst : Close(i))
 Spec == Init /\ [][Next]_vars
+\* the design with the historical bug added (refuted by TLC, see RemoteMap_bug1.cfg)
+SpecRestartBeforeJoin == Init /\ [][Next \/ SaRestartBeforeJoin]_vars
 
 ---------------------------------------------------------------------------
 (* C21 *)
